@@ -9,6 +9,7 @@ git -C /repo worktree add -q --detach $W HEAD || exit 2
 cd $W
 cp $D/demo_test.go ./zz_demo_test.go
 RUN=$(grep -o 'func Test[A-Za-z0-9_]*' zz_demo_test.go | head -1 | sed 's/func //')
+[ -n "$2" ] && RUN="$2"
 go test -vet=off -count=1 -run "$RUN" . > /tmp/confirm_clean.log 2>&1; A=$?
 git apply $D/patch.diff || { echo "PATCH DOES NOT APPLY"; exit 2; }
 mv zz_demo_test.go /tmp/zz_demo_test.go
